@@ -1,5 +1,6 @@
 """C06: tasks — decided on the L1 machine (theorem Ivy.Props.C06.monitor_accepts) + T-replay correspondence."""
-from . import l1, loopgen, c06list
+import concurrent.futures, os, subprocess
+from . import common, l1, loopgen, c06list
 PROP = "C06"
 LEANCHECK_MODULES = ["Ivy.L1.Machine", "Ivy.L1.Exec", "Ivy.Mon.C06", "Ivy.L1.ProofsC06", "Ivy.Props.C06", "Ivy.L0.ListPtr", "Ivy.L0.ListPtrProofs", "Ivy.Props.C06list"]
 FAMILIES = ["tasks", "mix"]
@@ -62,13 +63,123 @@ def starve_cases(seed):
     return cases
 
 
+# ---------------------------------------------------------------- several loops in one process (T-sched harness)
+THREADS_RULE = ("; plus the ENUMERATED family 'threads' on the multi-thread scheduler harness (harness/mt_h.c): a self-re-registering task, a ring "
+                "of two tasks and two threads that both run self-re-registering tasks, while ANOTHER thread's loop goes round during the "
+                "handler (woken by an event the handler posts, or busy with tasks of its own), under seed-chosen and systematically enumerated "
+                "schedules: rounds are per loop - no task handler may run twice in one thread without that thread's kernel poll in between")
+MT_H = os.path.join(common.BUILD, "mt_c06")
+
+
+def threads_scenarios(tier, seed):
+    out = []
+    for v in ("event", "both", "ring", "timer"):
+        for n in ((5,) if tier == "quick" else (4, 7, 12)):
+            for sd in range(seed * 10, seed * 10 + (4 if tier == "quick" else 12)):
+                L = [f"cfg seed={sd} stay=55 waitlimit=120 cblimit=400", "thread 0", "obj task k1", "obj task k3", "obj timer t0", "do kreg k1"]
+                if v == "event":
+                    L += [f"on k1 {i} : evpost e1 ; yield ; yield ; kreg k1" for i in range(1, n)]
+                    L += ["main", "thread 1", "obj event e1", "do evreg e1", f"on e1 {n - 1} : evunreg e1", "main"]
+                elif v == "both":
+                    L += [f"on k1 {i} : yield ; kreg k1 ; yield" for i in range(1, n)]
+                    L += ["main", "thread 1", "obj task k2", "do kreg k2"] + [f"on k2 {i} : yield ; kreg k2 ; yield" for i in range(1, n)] + ["main"]
+                elif v == "ring":
+                    L += [f"on k1 {i} : evpost e1 ; yield ; kreg k3 ; yield" for i in range(1, n)] + [f"on k3 {i} : yield ; kreg k1" for i in range(1, n)]
+                    L += ["main", "thread 1", "obj event e1", "do evreg e1", f"on e1 {n - 1} : evunreg e1", "main"]
+                else:
+                    # the handler registers a due timer as well: it must be run (next iteration) although the task keeps re-registering
+                    L += [f"on k1 {i} : evpost e1 ; yield ; ?trel t0 0 ; kreg k1" for i in range(1, n)]
+                    L += ["main", "thread 1", "obj event e1", "do evreg e1", f"on e1 {n - 1} : evunreg e1", "main"]
+                out.append((f"threads-{v}-n{n}-s{sd}", L))
+    return out
+
+
+def threads_oracle(log):
+    """C06 on the multi-thread harness' log: per thread, the same task's handler twice with no kernel poll of that thread (and no return
+    from iv_main) in between = a re-registration made inside the round was not deferred"""
+    ran = {}
+    for n, l in enumerate(log.splitlines(), 1):
+        w = l.split()
+        if len(w) < 2:
+            continue
+        t = w[0]
+        if w[1] in ("WAIT", "MAINRET"):
+            ran[t] = {}
+        elif w[1] == "CB" and len(w) > 2 and w[2].startswith("k"):
+            if w[2] in ran.setdefault(t, {}):
+                return (f"line {n}: handler of task {w[2]} runs again in {t} (previous run at line {ran[t][w[2]]}) although {t}'s loop has not been "
+                        f"through a kernel poll in between: a re-registration made by a task that already ran in the current round was not deferred")
+            ran[t][w[2]] = n
+        elif w[1] == "FATAL":
+            return f"line {n}: the library called iv_fatal: {' '.join(w[2:])[:120]}"
+    return None
+
+
+def run_mt(lines):
+    env = dict(os.environ, ASAN_OPTIONS="detect_stack_use_after_return=1:detect_leaks=0:abort_on_error=0")
+    try:
+        r = subprocess.run([MT_H], input="\n".join(lines) + "\n", stdout=subprocess.PIPE, stderr=subprocess.PIPE, text=True, timeout=75, env=env)
+        return r.stdout, r.stderr, r.returncode
+    except subprocess.TimeoutExpired:
+        return "", "TIMEOUT", -9
+
+
+def mt_fails(lines):
+    out, err, rc = run_mt(lines)
+    if "HARNESS-ERROR" in out:
+        return None
+    m = threads_oracle(out)
+    if m is None and rc != 0:
+        m = f"harness exit {rc}: {common.san_line(err) or err[-200:]}"
+    return m
+
+
+def threads_part(tier, seed, res):
+    ok, log = common.build_mt(out=MT_H)
+    if not ok:
+        res.divergences.append(("multi-thread harness no longer builds: " + log[-300:], None))
+        return
+    from . import sched
+    cases = threads_scenarios(tier, seed)
+    bases = [(c[0], c[1]) for c in cases if c[0].endswith(f"-s{seed * 10}")]
+    cases += list(sched.enum_cases(PROP, MT_H, bases, tier, os.path.join(common.BUILD, "sched-c06"), want=len(bases), budget=120 if tier == "quick" else 1500))
+    n = inter = 0
+    with concurrent.futures.ThreadPoolExecutor(max_workers=common.NCPU) as ex:
+        for (name, lines), m, out in common.bounded_map(ex, lambda c: (c, mt_fails(c[1]), None), cases):
+            n += 1
+            res.evaluations += 1
+            if m:
+                # shrink only on the same verdict (a degenerate scenario that upsets the harness is not a smaller witness)
+                same = lambda ls: "HARNESS-ERROR" not in run_mt(ls)[0] and "runs again" in (threads_oracle(run_mt(ls)[0]) or "")
+                small = common.shrink(lines, same, keep_head=1) if "runs again" in m else lines
+                m2 = mt_fails(small) or m
+                pth = common.write_case(PROP, name, ["# threads case (multi-thread harness)"] + small, tier, seed, ext="scn")
+                res.impl_violations.append(("task:threads:ran-twice-in-round", "implementation violates C06: " + m2, pth))
+                break
+    res.extra["threads_cases"] = n
+
+
+def replay_threads(path):
+    lines = [l.rstrip("\n") for l in open(path) if l.strip() and not l.startswith("#")]
+    ok, log = common.build_mt(out=MT_H)
+    if not ok:
+        print(log); return 2
+    out, err, rc = run_mt(lines)
+    print("--- implementation log"); print(out[-6000:], err[-1500:])
+    m = threads_oracle(out) or (f"harness exit {rc}" if rc else None)
+    print("--- verdict:", m or "ok")
+    return 1 if m else 0
+
+
 def run(tier, seed, proof):
-    res = l1.run_property(PROP, tier, seed, proof, FAMILIES, MONS, [], nontrivial, RULE + STARVE_RULE + LIST_RULE + loopgen.ENUM_RULE,
+    res = l1.run_property(PROP, tier, seed, proof, FAMILIES, MONS, [], nontrivial, RULE + STARVE_RULE + LIST_RULE + loopgen.ENUM_RULE + THREADS_RULE,
                           extra_cases=lambda tier, seed: starve_cases(seed) + loopgen.quit_cases() +
                           [c for c in loopgen.ktimer_cases(seed) if "kreg" in " ".join(c[1])])
     # the intrusive list the task queue (and every other queue of the library) is built from: pointer-level model, differential run
     if proof["driver_ok"]:
         c06list.check(tier, seed, res)
+    if not res.impl_violations:
+        threads_part(tier, seed, res)
     return res
 
 
@@ -77,6 +188,8 @@ def search(tier, seed, proof):
 
 
 def replay(path):
+    if "# threads case" in open(path).read():
+        return replay_threads(path)
     if path.endswith(".listops") or "C06:list:" in open(path).read():
         return c06list.replay(path)
     return l1.replay(path)
